@@ -399,7 +399,7 @@ add("c15_clone_count_zst", "c14::h_clone_count_zst::<{N}>({A})", ["C15", "C02"],
 for sh, K, V in (("u8", "u8", "u8"), ("id", "Key", "u8")):
     add("c18_insert_unchecked_" + sh, "c01::h_insert::<%s, %s, {N}>(3)" % (K, V), ["C18", "C12"], N_(1, 2), N_(1, 2, 3, 4), profile="both",
         fn="Map::insert_unchecked under its documented precondition: the contract of insert", shape="S_" + sh)
-add("kc_vacant_insert_full_frame", "core_contracts::h_vacant_insert_full_frame::<u8, u8, {N}>()", ["C03", "C05"], N_(0), N_(0, 1), profile="both", unwind="N+5", timeout="30m",
+add("kc_vacant_insert_full_frame", "core_contracts::h_vacant_insert_full_frame::<u8, u8, {N}>()", ["C03", "C05"], N_(0), N_(0), profile="both", unwind="N+5", timeout="30m",
     expect=PANIC(*FULL_PANIC), contracts=True, kind="contract", backend="kani-contract", attrs=["#[kani::proof_for_contract(crate::entry::VacantEntry::<u8, u8, {N}>::insert)]"],
     fn="VacantEntry::insert under requires(full && key absent) modifies() - nothing is written before the panic", shape="S_u8")
 
@@ -418,7 +418,7 @@ for wi, nm in enumerate(ITERS):
 # ------------------------------------------------------------------ second round additions: defaulted trait methods, lying sources
 for sh, K, V in (("u8", "u8", "u8"), ("id", "Key", "u8")):
     add("c15_clone_from_" + sh, "c14::h_clone_from::<%s, %s, {N}>()" % (K, V), ["C15"], N_(0, 2), T3, fn="Clone::clone_from for Map and Set", shape="S_" + sh)
-add("own_clone_from", "life::h_clone_from::<{N}>()", ["C15", "C02"], N_(1, 2), N_(1, 2, 3), fn="Clone::clone_from for Map (ownership ledger)", shape="S_tok")
+add("own_clone_from", "life::h_clone_from::<{N}>()", ["C15", "C02"], N_(1, 2), N_(1, 2), fn="Clone::clone_from for Map (ownership ledger)", shape="S_tok")
 for wi, nm in enumerate(("into_iter", "into_keys", "into_values", "drain")):
     for oi, op in enumerate(("nth", "last", "count", "fold")):
         add("own_%s_%s" % (nm, op), "life::h_consume_derived::<{N}>(%d, %d, false)" % (wi, oi), ["C02", "C10"], N_(2), N_(1, 2, 3), unwind="N+3",
